@@ -724,6 +724,19 @@ def eval_auto(ctx, c, outs):
     hs = [f'n:{i}' for i in range(n)]
     for v in check_bijection(ix, absent=[n, n + 3, 'a', 1.5], expect=hs, what=f'auto({n},{c["route"]})'):
         fails.append(Failure('oracle', v, c))
+    # an index of another class built from the automatic one (labels converted or not) is again a bijection
+    import static_frame as sf
+    for cls_name in ('Index', 'IndexGO', 'IndexDate', 'IndexYear', 'IndexSecond', 'IndexDateGO'):
+        try:
+            conv = getattr(sf, cls_name)(ix)
+        except Exception as ex:
+            fails.append(Failure('oracle', f'{cls_name}(auto index of {n}) raised {type(ex).__name__}: {ex}', c))
+            continue
+        ctx.count('auto_converted_class')
+        for v in check_bijection(conv, absent=['a'] if cls_name in ('Index', 'IndexGO') else [], what=f'{cls_name}(auto({n},{c["route"]}))'):
+            fails.append(Failure('oracle', v, c))
+        if len(conv) != n:
+            fails.append(Failure('oracle', f'{cls_name}(auto index of {n}) has length {len(conv)}', c))
     keys = auto_keys(n)
     for ki, key in enumerate(keys):
         pykey = auto_py_key(key)
@@ -1244,6 +1257,19 @@ def eval_derive(ctx, c, outs):
             res = ix.level_add('top')
             exp = [(H('top'),) + (h if hier else (h,)) for h in hs]
             res_hier = True
+        elif op == 'level_drop' and arg['shift'] % 2 == 1:
+            # inner levels dropped: the tree keeps one node per remaining prefix (repaired: the offsets of the kept targets)
+            cnt = -1
+            d = len(base['kinds'])
+            seen_p = []
+            for h in hs:
+                if h[:cnt] not in seen_p:
+                    seen_p.append(h[:cnt])
+            exp = seen_p
+            if d + cnt == 1:
+                exp = [h[0] for h in exp]
+                res_hier = False
+            res = ix.level_drop(cnt)
         elif op == 'level_drop':
             cnt = 1
             d = len(base['kinds'])
@@ -1326,8 +1352,6 @@ def eval_derive(ctx, c, outs):
 def classify(f):
     c = f.case
     d = f.detail or {}
-    if c.get('k') == 'auto' and f.kind == 'oracle' and d.get('auto_negstep'):
-        return 'F49-auto-index-label-slice-negative-step-stop'
     if c.get('k') == 'flat' and f.kind == 'oracle' and d.get('negstep') and c.get('kind') in ic.DT_CLASS:
         return 'F48-datetime-label-slice-negative-step-stop'
     return None
